@@ -21,6 +21,21 @@ Record physfs := mkPhys {
 Definition phys_new : physfs :=
   mkPhys {[ [] := mkPNode PDir TAuto TAuto ]} ∅ 0.
 
+(** a directory tree that exists before the filesystem is used (a folder on disk) *)
+Fixpoint add_dirs (t : gmap path pnode) (rev_path : list name) : gmap path pnode :=
+  match rev_path with
+  | [] => t
+  | _ :: rest =>
+      let d := reverse rev_path in
+      add_dirs (match t !! d with Some _ => t | None => <[d := mkPNode PDir TAuto TAuto]> t end) rest
+  end.
+Definition phys_of_files (files : list (path * bytes)) : physfs :=
+  foldl (fun s fb =>
+           let ino := p_next s in
+           mkPhys (<[fst fb := mkPNode (PFile ino) TAuto TAuto]> (add_dirs (p_tree s) (tl (reverse (fst fb)))))
+                  (<[ino := snd fb]> (p_inodes s)) (S ino))
+        phys_new files.
+
 Definition phys_inode (s : physfs) (ino : nat) : bytes := default [] (p_inodes s !! ino).
 (** a write through a descriptor replaces the bytes and stamps the modification time of
     the (still linked) file *)
